@@ -33,9 +33,9 @@ class Co:
         self.finished = True
         self.to_d.release()
 
-    def start(self):
+    def start(self, timeout=10):
         self.thread.start()
-        return self.resume()
+        return self.resume(timeout=timeout)
 
     # helper-thread side
     def yield_(self, what):
